@@ -142,6 +142,34 @@ def tiny_frequencies(res, rng, C):
                 fail(res, 'non-negative (finite) at a small positive frequency', name, tuple(args), float(v))
 
 
+def extreme_frequencies(res, rng, C):
+    """every spectrum at positive frequencies of extreme magnitude (1e-300 .. 1e300): the value must be a non-negative number (0, a finite value
+    or an overflow to +inf), never nan.  The Davenport forms at a reduced frequency whose square overflows (x = 1200 n / U > 1.3e154)
+    return inf / inf = nan: recorded as a known finding under ONE signature (call site `rightPart` of the two Davenport functions, region
+    x * x = inf); everything else is reported under its own input"""
+    import warnings
+    for name, f in sorted(C.items()):
+        for _ in range(2):
+            base = list(sample_args(rng, name))
+            for x in (1e-300, 1e-160, 1e-80, 1e-70, 1e-30, 1e30, 1e80, 1e155, 1e160, 1e300):
+                args = [x] + base[1:]
+                res.evaluations += 1
+                res.stat('extreme_frequency_' + ('tiny' if x < 1 else 'huge'))
+                try:
+                    with warnings.catch_warnings():
+                        warnings.simplefilter('ignore')
+                        v = f(*args)
+                except Exception as e:  # noqa
+                    fail(res, 'admissible parameters rejected: ' + type(e).__name__ + ' ' + str(e)[:80], name, tuple(args), None)
+                    continue
+                if not (v >= 0):
+                    if name.startswith('davenport') and x >= 1e150:
+                        res.failures.append({'signature': 'C18:davenport:nan-where-the-squared-reduced-frequency-overflows', 'clause': 'non-negative at an extreme positive frequency',
+                                             'api': name, 'input': args, 'impl_output': float(v)})
+                    else:
+                        fail(res, 'non-negative (not nan) at an extreme positive frequency', name, tuple(args), float(v))
+
+
 def explore(res, rng, n, areas):
     lsm = impl()
     C = calls(lsm)
@@ -174,6 +202,7 @@ def explore(res, rng, n, areas):
                     fail(res, 'admissible parameters rejected when passed as numpy scalars: ' + type(e).__name__ + ' ' + str(e)[:60], name, a32, None)
     narrow_integer_arguments(res, rng, C)
     tiny_frequencies(res, rng, C)
+    extreme_frequencies(res, rng, C)
     gen.validate(res, 'Wave', [c for c in tv if c[0] in ('piersonMoskowitzSpectrum', 'jonswapSpectrum', 'isscSpectrum',
                                                           'gaussianSwellSpectrum', 'ochiHubbleSpectrum')], rtol=1e-9)
     gen.validate(res, 'Wind', [c for c in tv if c[0] not in ('piersonMoskowitzSpectrum', 'jonswapSpectrum', 'isscSpectrum',
